@@ -171,7 +171,7 @@ theorem zStep_inv (z : Zc) (h : ZInv z) (op : ZOp) : ZInv (zStep z op) := by
       rcases hy with hy | hy
       · exact i3 y hy
       · exact ⟨i, by rw [hy]; exact Option.some.inj hh⟩
-  | lookup ok =>
+  | lookup e =>
     simp only [zStep, zGet, zClose]
     cases hi : z.inst with
     | none =>
@@ -199,12 +199,13 @@ theorem c20_never_closes_supplied (supplied : Option Nat) (ops : List ZOp) :
 
 /-- **C20 (what the library created it closes again).**  `async_close` closes an instance the
 manager created; a lookup that found no instance closes the one it caused to be created — whether
-the request succeeded or failed — and a lookup that found an instance closes nothing. -/
-theorem c20_ownership (z : Zc) (ok : Bool) :
+the request succeeded, failed or was abandoned in flight (cancellation / enclosing timeout) — and a
+lookup that found an instance closes nothing. -/
+theorem c20_ownership (z : Zc) (e : LEnd) :
     (∀ i, z.inst = some (.own i) → z.created = true → (zStep z .close).closed = z.closed ++ [.own i] ∧ (zStep z .close).inst = none) ∧
-    (z.inst = none → (zStep z (.lookup ok)).closed = z.closed ++ [.own z.next] ∧ (zStep z (.lookup ok)).inst = none ∧
-        (zStep z (.lookup ok)).created = false) ∧
-    (∀ x, z.inst = some x → (zStep z (.lookup ok)).closed = z.closed ∧ (zStep z (.lookup ok)).inst = some x) := by
+    (z.inst = none → (zStep z (.lookup e)).closed = z.closed ++ [.own z.next] ∧ (zStep z (.lookup e)).inst = none ∧
+        (zStep z (.lookup e)).created = false) ∧
+    (∀ x, z.inst = some x → (zStep z (.lookup e)).closed = z.closed ∧ (zStep z (.lookup e)).inst = some x) := by
   refine ⟨?_, ?_, ?_⟩
   · intro i hi hc; simp [zStep, zClose, hi, hc]
   · intro hi; simp [zStep, zGet, zClose, hi]
@@ -227,9 +228,13 @@ example : errOf (resolve demoOracle ["garage".toList]).1 = some .none := by deci
 example : addressIsLocal "living-room.local.".toList = true ∧ addressIsLocal "local".toList = false ∧
     hostIsNamePart "fe80::1".toList = false := by decide +kernel
 /-- lookup without an instance, then the application supplies one, then close: the supplied one is untouched -/
-example : (zRun {} [.lookup true, .setInstance 7, .close, .lookup false]).closed = [.own 1000] := by decide +kernel
+example : (zRun {} [.lookup .ok, .setInstance 7, .close, .lookup .fail]).closed = [.own 1000] := by decide +kernel
 /-- the library fails to create its own instance, the application then supplies one: closing leaves it alone -/
 example : (zRun {} [.getFail, .setInstance 7, .close]).closed = [] ∧ (zRun {} [.getFail, .setInstance 7, .close]).inst = some (.supplied 7) := by
   decide +kernel
+
+/-- a lookup abandoned in flight still gives back what it created; one that found an instance leaves it alone -/
+example : (zRun {} [.lookup .cancelled, .get, .lookup .cancelled]).closed = [.own 1000] ∧
+    (zRun {} [.lookup .cancelled, .get, .lookup .cancelled]).inst = some (.own 1001) := by decide +kernel
 
 end Esp.C20
